@@ -85,10 +85,17 @@ pub fn normalise(msg: &str) -> String {
             prev_space = false;
         }
     }
-    if out.chars().count() > 100 {
-        out = out.chars().take(100).collect();
+    // keep the head of the message: Debug dumps of values, types and user identifiers follow
+    // the first bracket / quote and would split one call site into many signatures
+    if let Some(i) = out.find(|c| matches!(c, '[' | '{' | '(' | '"' | '`' | '\'')) {
+        if i >= 12 {
+            out.truncate(i);
+        }
     }
-    out
+    if out.chars().count() > 70 {
+        out = out.chars().take(70).collect();
+    }
+    out.trim_end().to_string()
 }
 
 impl PanicInfo {
